@@ -90,7 +90,7 @@ func (e *Environment) BaseInfo() *BigMap {
 
 func (e *Environment) Info() Object {
 	allKeys := make([]Object, e.depth)
-	info := e.BaseInfo()
+	info := CopyMap(e.BaseInfo()) // a value of its own: an earlier `x = info` must not change when info is evaluated again.
 	for {
 		keys := make([]string, 0, len(e.store))
 		for k := range e.store {
